@@ -67,6 +67,7 @@ def run(ctx):
             lines.append("dops %s %d W%s R R" % (f["dt"], lim, f["hex"]))
             info.append((f, lim, nmax))
     ans = C.harness(lines, timeout=1800)
+    D.compare_dops(ctx, lines, ans, 'dops(iterate)')
     whole = {}
     wl = ["dops %s 100000 W%s D" % (f["dt"], f["hex"]) for f in files]
     for f, a in zip(files, C.harness(wl)):
